@@ -50,36 +50,41 @@ def legal32 (name : String) (ops : List Opnd) : Bool :=
   | some c => legalOf c ops
   | none => false
 
-def legal16 (name : String) (ops : List Opnd) : Bool :=
-  match name, ops with
-  | "c.addi4spn", [.reg rd, .imm v] => isRegC rd && uimm 10 v && multOf 4 v && v ≠ 0
-  | "c.lw", [.reg rd, .reg rs1, .imm v] => isRegC rd && isRegC rs1 && uimm 7 v && multOf 4 v
-  | "c.sw", [.reg rs1, .reg rs2, .imm v] => isRegC rs1 && isRegC rs2 && uimm 7 v && multOf 4 v
-  | "c.nop", [] => true
-  | "c.addi", [.reg rd, .imm v] => isReg rd && rd ≠ 0 && simm 6 v && v ≠ 0
-  | "c.jal", [.imm v] => simm 12 v && multOf 2 v
-  | "c.li", [.reg rd, .imm v] => isReg rd && rd ≠ 0 && simm 6 v
-  | "c.addi16sp", [.imm v] => simm 10 v && multOf 16 v && v ≠ 0
-  | "c.lui", [.reg rd, .imm v] =>
+def legalOf16 (c : CMn) (ops : List Opnd) : Bool :=
+  match c, ops with
+  | .addi4spn, [.reg rd, .imm v] => isRegC rd && uimm 10 v && multOf 4 v && v ≠ 0
+  | .lw, [.reg rd, .reg rs1, .imm v] => isRegC rd && isRegC rs1 && uimm 7 v && multOf 4 v
+  | .sw, [.reg rs1, .reg rs2, .imm v] => isRegC rs1 && isRegC rs2 && uimm 7 v && multOf 4 v
+  | .nop, [] => true
+  | .addi, [.reg rd, .imm v] => isReg rd && rd ≠ 0 && simm 6 v && v ≠ 0
+  | .jal, [.imm v] => simm 12 v && multOf 2 v
+  | .li, [.reg rd, .imm v] => isReg rd && rd ≠ 0 && simm 6 v
+  | .addi16sp, [.imm v] => simm 10 v && multOf 16 v && v ≠ 0
+  | .lui, [.reg rd, .imm v] =>
       isReg rd && rd ≠ 0 && rd ≠ 2 && ((simm 6 v && v ≠ 0) || (decide (0xfffe0 ≤ v) && decide (v ≤ 0xfffff)))
-  | "c.srli", [.reg rd, .imm v] => isRegC rd && uimm 5 v && v ≠ 0
-  | "c.srai", [.reg rd, .imm v] => isRegC rd && uimm 5 v && v ≠ 0
-  | "c.andi", [.reg rd, .imm v] => isRegC rd && simm 6 v
-  | "c.sub", [.reg rd, .reg rs2] => isRegC rd && isRegC rs2
-  | "c.xor", [.reg rd, .reg rs2] => isRegC rd && isRegC rs2
-  | "c.or", [.reg rd, .reg rs2] => isRegC rd && isRegC rs2
-  | "c.and", [.reg rd, .reg rs2] => isRegC rd && isRegC rs2
-  | "c.j", [.imm v] => simm 12 v && multOf 2 v
-  | "c.beqz", [.reg rs1, .imm v] => isRegC rs1 && simm 9 v && multOf 2 v
-  | "c.bnez", [.reg rs1, .imm v] => isRegC rs1 && simm 9 v && multOf 2 v
-  | "c.slli", [.reg rd, .imm v] => isReg rd && rd ≠ 0 && uimm 5 v && v ≠ 0
-  | "c.lwsp", [.reg rd, .imm v] => isReg rd && rd ≠ 0 && uimm 8 v && multOf 4 v
-  | "c.jr", [.reg rs1] => isReg rs1 && rs1 ≠ 0
-  | "c.mv", [.reg rd, .reg rs2] => isReg rd && isReg rs2 && rd ≠ 0 && rs2 ≠ 0
-  | "c.ebreak", [] => true
-  | "c.jalr", [.reg rs1] => isReg rs1 && rs1 ≠ 0
-  | "c.add", [.reg rd, .reg rs2] => isReg rd && isReg rs2 && rd ≠ 0 && rs2 ≠ 0
-  | "c.swsp", [.reg rs2, .imm v] => isReg rs2 && uimm 8 v && multOf 4 v
+  | .srli, [.reg rd, .imm v] => isRegC rd && uimm 5 v && v ≠ 0
+  | .srai, [.reg rd, .imm v] => isRegC rd && uimm 5 v && v ≠ 0
+  | .andi, [.reg rd, .imm v] => isRegC rd && simm 6 v
+  | .sub, [.reg rd, .reg rs2] => isRegC rd && isRegC rs2
+  | .xor, [.reg rd, .reg rs2] => isRegC rd && isRegC rs2
+  | .or, [.reg rd, .reg rs2] => isRegC rd && isRegC rs2
+  | .and, [.reg rd, .reg rs2] => isRegC rd && isRegC rs2
+  | .j, [.imm v] => simm 12 v && multOf 2 v
+  | .beqz, [.reg rs1, .imm v] => isRegC rs1 && simm 9 v && multOf 2 v
+  | .bnez, [.reg rs1, .imm v] => isRegC rs1 && simm 9 v && multOf 2 v
+  | .slli, [.reg rd, .imm v] => isReg rd && rd ≠ 0 && uimm 5 v && v ≠ 0
+  | .lwsp, [.reg rd, .imm v] => isReg rd && rd ≠ 0 && uimm 8 v && multOf 4 v
+  | .jr, [.reg rs1] => isReg rs1 && rs1 ≠ 0
+  | .mv, [.reg rd, .reg rs2] => isReg rd && isReg rs2 && rd ≠ 0 && rs2 ≠ 0
+  | .ebreak, [] => true
+  | .jalr, [.reg rs1] => isReg rs1 && rs1 ≠ 0
+  | .add, [.reg rd, .reg rs2] => isReg rd && isReg rs2 && rd ≠ 0 && rs2 ≠ 0
+  | .swsp, [.reg rs2, .imm v] => isReg rs2 && uimm 8 v && multOf 4 v
   | _, _ => false
+
+def legal16 (name : String) (ops : List Opnd) : Bool :=
+  match classOf16 name with
+  | some c => legalOf16 c ops
+  | none => false
 
 end BB.Spec
